@@ -260,7 +260,7 @@ def binary_session(app, cid, steps, selfplay=None, quit_during_search=False, wat
     banner = pr.get(10.0)      # the start-up banner is free text
     dead = False
 
-    def wait_bestmove(stop_after=None, hit_after=None, during=None):
+    def wait_bestmove(stop_after=None, hit_after=None, during=None, cap=400):
         nonlocal dead
         t0 = time.time()
         hit_sent = hit_after is None
@@ -277,7 +277,7 @@ def binary_session(app, cid, steps, selfplay=None, quit_during_search=False, wat
                 ev.append({"c": cid, "ev": "in", "cmd": "ponderhit"})
                 pr.send("ponderhit")
                 hit_sent = True
-            if not stop_sent and (now - t0 >= stop_after / 1000.0 or logged >= 400):
+            if not stop_sent and (now - t0 >= stop_after / 1000.0 or logged >= cap):
                 ev.append({"c": cid, "ev": "in", "cmd": "stop"})
                 pr.send("stop")
                 stop_sent = True
@@ -287,7 +287,7 @@ def binary_session(app, cid, steps, selfplay=None, quit_during_search=False, wat
                 if line == "<timeout>":
                     continue
             else:
-                if logged >= 400 and not stop_sent:
+                if logged >= cap and not stop_sent:
                     pass
                 line = pr.get(max(watchdog - (now - last_msg), 0.001))
                 if line == "<timeout>":
@@ -306,10 +306,10 @@ def binary_session(app, cid, steps, selfplay=None, quit_during_search=False, wat
                     ev.append({"c": cid, "ev": "truncated", "skipped": skipped})
                 ev.append({"c": cid, "ev": "out", "raw": line})
                 return line.split()
-            if logged < 400:
+            if logged < cap:
                 logged += 1
                 ev.append({"c": cid, "ev": "out", "raw": line})
-                if logged >= 400 and not stop_sent:
+                if logged >= cap and not stop_sent:
                     ev.append({"c": cid, "ev": "in", "cmd": "stop"})
                     pr.send("stop")
                     stop_sent = True
@@ -319,7 +319,24 @@ def binary_session(app, cid, steps, selfplay=None, quit_during_search=False, wat
     def do_go(g):
         ev.append({"c": cid, "ev": "in", "cmd": "go", "searchmoves": g.get("searchmoves", []), "limited": limited(g), "params": g})
         pr.send(go_line(g))
-        return wait_bestmove(g.get("stop_after_ms"), g.get("ponderhit_after_ms"), g.get("position_during"))
+        nb = g.get("isready_burst", 0)
+        if nb:
+            # the command thread answers while the search thread reports: every line must still come out whole
+            for _ in range(nb):
+                ev.append({"c": cid, "ev": "in", "cmd": "isready"})
+            pr.send("\n".join(["isready"] * nb))
+        before = len(ev)
+        r = wait_bestmove(g.get("stop_after_ms"), g.get("ponderhit_after_ms"), g.get("position_during"), cap=400 + 2 * nb)
+        if nb and r is not None:
+            seen = sum(1 for e in ev[before:] if e.get("raw") == "readyok")
+            while seen < nb:
+                line = pr.get(10.0)
+                if line in ("<timeout>", None):
+                    break
+                ev.append({"c": cid, "ev": "out", "raw": line})
+                if line == "readyok":
+                    seen += 1
+        return r
 
     for st in steps:
         if dead:
@@ -660,6 +677,13 @@ def plan_c16(wd, rng, T, mat):
         # a search with a PV, then a move-less root on the same process: the ponder move must not be left over
         mk(binary, "binary", [{"t": "position", "fen": START, "moves": []}, {"t": "go", "depth": 3},
                                {"t": "position", "fen": g["fen"], "moves": []}, {"t": "go", "depth": 2}])
+    # replies of the command thread while the search thread is reporting (real process): bursts of isready behind every go
+    for k in range(6 if T else 2):
+        g = rng.choice(mat.items)
+        steps = [{"t": "position", "fen": g["fen"] if k % 2 else START, "moves": []}]
+        for _ in range(40 if T else 20):
+            steps.append({"t": "go", "depth": rng.choice([3, 4]), "isready_burst": 300})
+        mk(binary, "binary", steps)
     # a ponderhit in the middle of a search (the engine does not ponder; what it reports must not change character: time, nodes, depth go on)
     heavy = heavy_positions(mat) or mat.items
     for g in rng.sample(heavy, min(len(heavy), 10 if T else 3)):
